@@ -427,7 +427,8 @@ class TBRMMDiagnostics:
       return None
 
     y = self._y
-    n_test = self._par.n_test
+    # (n_test is integer-valued, but may be given as a float.)
+    n_test = int(self._par.n_test)
     n_pretest = len(y) - n_test
     if n_pretest < self._min_timepoints:
       return AATestResult(None, None, None)
